@@ -23,6 +23,16 @@ fn resizable<T: serde::Serialize + serde::de::DeserializeOwned + Bytes>(out: &mu
             Outcome::Panic => out.hit(&format!("serde.json.decode-panics.{}", name), format!("{} elements", len), rp.clone()),
             Outcome::Err => out.hit(&format!("serde.json.rejects-valid.{}", name), format!("{} elements", len), rp.clone()),
         }
+        // the same element sequence through a deserializer that announces its length (serde_json::Value reports a size hint)
+        { let val = serde_json::Value::Array(elems.iter().map(|x| serde_json::Value::from(*x)).collect());
+          let r2 = guard(|| serde_json::from_value::<T>(val.clone())).map(|v| v.as_slice().to_vec());
+          out.search_evaluations += 1;
+          match &r2 {
+              Outcome::Ok(v) if *v == elems => {}
+              Outcome::Ok(v) => out.hit(&format!("serde.json-value.decodes-other-bytes.{}", name), format!("{} elements (size hint given) decoded to {} bytes", len, v.len()), rp.clone()),
+              Outcome::Panic => out.hit(&format!("serde.json-value.decode-panics.{}", name), format!("{} elements", len), rp.clone()),
+              Outcome::Err => out.hit(&format!("serde.json-value.rejects-valid.{}", name), format!("{} elements", len), rp.clone()),
+          } }
         // byte string (bincode)
         let enc = bincode::serialize(&elems).unwrap();
         let r = guard(|| bincode::deserialize::<T>(&enc)).map(|v| v.as_slice().to_vec());
